@@ -1,8 +1,20 @@
 #!/bin/sh
 # check.sh <Cnn> <quick|thorough>: rebuilds govc if needed and checks one property against /repo's working tree.
+# thorough additionally re-runs the property's must-fail corpus (selftest/<Cnn>/*.patch) on a scratch copy of
+# the working tree and reports how many mutants the check still kills; that report is informational (a
+# surviving mutant is a weakness of the check, not a violation of the property by the tree) and never
+# changes the exit code.
 cd "$(dirname "$0")"
 export GOFLAGS=-mod=mod GOPROXY=off GOSUMDB=off GOTOOLCHAIN=local
 if [ ! -x bin/govc ] || [ -n "$(find govc -name '*.go' -newer bin/govc 2>/dev/null | head -1)" ]; then
   ./setup.sh >/dev/null 2>&1 || { echo "UNDECIDED property=$1 reason=\"govc does not build\""; exit 3; }
 fi
-exec ./bin/govc check --property "$1" --tier "${2:-quick}"
+if [ "${2:-quick}" = "thorough" ]; then
+  ./bin/govc check --property "$1" --tier thorough
+  rc=$?
+  if [ $rc -eq 0 ] && [ -d "selftest/$1" ]; then
+    ./bin/govc selftest --property "$1" 2>&1 | sed -e 's/^selftest:/SELFTEST property='"$1"':/' | grep -v '^VIOLATION' | tail -20
+  fi
+  exit $rc
+fi
+exec ./bin/govc check --property "$1" --tier quick
